@@ -280,10 +280,13 @@ func c05Exec(c *mc.Ctx, v interface{}) {
 		c.Outcome("bad location refused")
 	default: // the reference cannot make sense of the input
 		if got.ok {
-			// e.g. an odd section-lengths array count, of which the reader reads
-			// ceil(n/2) pairs.  The property demands refusal only for bad
-			// locations, so this is recorded, not judged.
-			c.Outcome("accepted although the reference cannot extract (recorded, not judged): " + mc.ClassOf(rerr.Error()))
+			// The extractor accepts every encoding the reader's CBOR decoder accepts, so an
+			// input it cannot extract has no complete bundle structure at the places the
+			// format puts it: whatever the reader returned was not "found in the input as an
+			// independent parser extracts it" (e.g. a string cut short by its container).
+			c.Nontrivial(cs.input)
+			c.Outcome("MALFORMED ACCEPTED: " + mc.ClassOf(rerr.Error()))
+			c.Fail(key, "reader accepted an input in which the independent parser finds no complete bundle structure", in, "error ("+rerr.Error()+")", fmt.Sprintf("accepted, %d exchanges", len(got.b.Exchanges)))
 			return
 		}
 		c.Outcome("malformed, refused")
